@@ -16,7 +16,7 @@ func init() {
 			"a class is (operation kind, position class in the history); non-trivial = a call that takes caller-owned slices or pointers",
 		Technique:        "state-fingerprint monitor around every call of random API histories + bitwise input snapshots + replayed probe calls (history independence)",
 		MinEvals:         map[string]int64{"quick": 2500, "thorough": 40000},
-		MinClasses:       map[string]int64{"quick": 28, "thorough": 30},
+		MinClasses:       map[string]int64{"quick": 20, "thorough": 24},
 		RequiredCounters: []string{"cheap_fingerprints_compared", "full_table_fingerprints_compared", "probe_replays_compared", "calls_with_input_snapshots"},
 		Assumptions:      []string{"APIs whose documented purpose is in-place mutation of the receiver or argument (Butterfly, MulBy*, FromMont/ToMont, Normalize, BatchNormalize) are checked against their specification in C15/C19, not against immutability", "the table fingerprint is a 64-bit non-cryptographic mix: a change is detected unless it collides"},
 		Plan: func(tier string) []Child {
